@@ -165,7 +165,7 @@ fn shard_loop(bin: &std::path::Path, file: &std::path::Path, shard: usize, n: us
         let mut done = false;
         let mut hung = false;
         loop {
-            match rx.recv_timeout(Duration::from_secs(90)) {
+            match rx.recv_timeout(Duration::from_secs(30)) {
                 Ok(line) => {
                     let mut p = line.split(' ');
                     match p.next() {
